@@ -309,6 +309,16 @@ pub fn c07_payload(p: &[u8], out: &mut Vec<Viol>, counts: &mut Counts) {
         }
         Err(pn) => bad("C05 panic in encode_streaming", pn),
     }
+    // the buffer encoder over an iterator whose size_hint is (0, usize::MAX)
+    match guarded(|| encode::<Vec<u8>>(crate::fe::hinted(p))) {
+        Ok(Ok(v)) => {
+            if v != f {
+                bad("C07 encode::<Vec>(iterator with a loose size_hint) differs from the Transport-v1 frame", format!("expected {} got {}", hx(&f), hx(&v)));
+            }
+        }
+        Ok(Err(_)) => bad("C07 encode::<Vec> reports OutOfMemory", String::new()),
+        Err(pn) => bad("C05 panic in encode (iterator with a loose size_hint)", pn),
+    }
     // `Encoder::new` directly (what `encode_streaming` wraps)
     match guarded(|| sml_rs::transport::Encoder::new(p.iter().copied()).take(lim).collect::<Vec<u8>>()) {
         Ok(v) => {
